@@ -486,7 +486,14 @@ func checkReuse(c reuseCase) error {
 	if errA != nil || errB != nil {
 		return nil
 	}
-	pbt.Note(append(append([]byte{}, wa...), wb...), len(c.A.AllRecs()) > 0 && len(c.B.AllRecs()) < len(c.A.AllRecs()), fmt.Sprintf("b-records=%d", min(len(c.B.AllRecs()), 4)))
+	cl := []string{fmt.Sprintf("b-records=%d", min(len(c.B.AllRecs()), 4))}
+	if c.A.Rcode > 15 {
+		cl = append(cl, "a-extended-rcode")
+		if c.B.Opt() < 0 {
+			cl = append(cl, "a-extended-rcode,b-without-opt")
+		}
+	}
+	pbt.Note(append(append([]byte{}, wa...), wb...), len(c.A.AllRecs()) > 0 && len(c.B.AllRecs()) < len(c.A.AllRecs()), cl...)
 	var u dns.Msg
 	if err := u.Unpack(wa); err != nil {
 		return nil
@@ -508,12 +515,31 @@ func checkReuse(c reuseCase) error {
 	if err != nil || !bytes.Equal(w2, wb) {
 		return pbt.Errf("unpacking message B into a Msg that held message A gives neither: %s", hexdiff(w2, wb))
 	}
+	// and the value packs as message B (converse relation on a used value)
+	for _, r := range c.B.AllRecs() {
+		if r.NoRdata && pbt.Known("nordata-repack") {
+			pbt.Excluded("nordata-repack")
+			return nil
+		}
+	}
+	if p, err := u.Pack(); err != nil || !bytes.Equal(p, wb) {
+		return pbt.Errf("a Msg that held message A, after unpacking the canonical image of message B, packs differently (err=%v): %s", err, hexdiff(p, wb))
+	}
 	return nil
+}
+
+// reuseRcode keeps a 12-bit RCODE where the message can carry it (an OPT record is present): the
+// upper bits then sit in the OPT record of the Msg value while the next message is read into it.
+func reuseRcode(m wm.Msg) int {
+	if m.Opt() >= 0 && m.Rcode >= 0 && m.Rcode <= 0xFFF {
+		return m.Rcode
+	}
+	return m.Rcode & 0xF
 }
 
 func genReuse(t *rapid.T) reuseCase {
 	a := genMsg(t).M
-	a.Rcode &= 0xF
+	a.Rcode = reuseRcode(a)
 	var b wm.Msg
 	switch rapid.IntRange(0, 3).Draw(t, "bkind") {
 	case 0: // header only
@@ -522,7 +548,7 @@ func genReuse(t *rapid.T) reuseCase {
 		b = wm.Msg{ID: 7, Flags: wm.FlagRD, Q: []wm.Question{{Name: gen.Name(t, gen.NameOpts{MaxLabs: 3}), Type: 1, Class: 1}}}
 	default:
 		b = genMsg(t).M
-		b.Rcode &= 0xF
+		b.Rcode = reuseRcode(b)
 	}
 	return reuseCase{A: a, B: b}
 }
